@@ -61,7 +61,7 @@ class Ctx:
         c.counter = self.counter
         c.used_fields = self.used_fields
         c.used_protocols = self.used_protocols
-        for a in ("fname", "line0", "assigned_fields", "mutates"):
+        for a in ("fname", "line0", "assigned_fields", "mutates", "break_ret"):
             if hasattr(self, a):
                 setattr(c, a, getattr(self, a))
         return c
@@ -223,12 +223,15 @@ class Translator:
                 raise Unsupported("list comprehension form")
             g = e.generators[0]
             it, tit = self.expr(g.iter, cx, binds)
-            if tit != VF or not isinstance(g.target, ast.Name):
+            if tit not in (VF, VI) or not isinstance(g.target, ast.Name):
                 raise Unsupported("list comprehension over non-vector")
             cxb = cx.child()
-            cxb.types[g.target.id] = F
+            cxb.types[g.target.id] = ELEM[tit]
             b2 = []
             s, t = self.expr(e.elt, cxb, b2)
+            if tit == VI and t == I:
+                body = wrap(b2, f"ret {s}")
+                return (self.hoist(cx, binds, f"mapM (fun {mg(g.target.id)} => {body}) {it}"), VI)
             body = wrap(b2, f"ret {coerce(s, t, F)}")
             return (self.hoist(cx, binds, f"mapM (fun {mg(g.target.id)} => {body}) {it}"), VF)
         raise Unsupported(f"expression {type(e).__name__}")
@@ -307,6 +310,8 @@ class Translator:
         b, tb = self.expr(e.right, cx, binds)
         if ta == I and tb == I and op is not ast.Div:
             o = {ast.Add: "+", ast.Sub: "-", ast.Mult: "*"}.get(op)
+            if op is ast.Mod and isinstance(e.right, ast.Constant) and isinstance(e.right.value, int) and e.right.value > 0:
+                return (f"(Z.modulo {a} {b})", I)      # Python's % with a positive modulus = Z.modulo
             if o is None:
                 raise Unsupported(f"int op {op.__name__}")
             return (f"({a} {o} {b})%Z", I)
@@ -357,6 +362,8 @@ class Translator:
             return (cmp(coerce(a, ta, F), coerce(b, tb, F)), B)
         if ta == VF and tb in (F, I):
             return (f"(map (fun e__ => {cmp('e__', coerce(b, tb, F))}) {a})", VB)
+        if ta == E and tb in (F, I) and o is ast.LtE:
+            return (f"(eleb {a} {coerce(b, tb, F)})", B)
         raise Unsupported(f"compare {ta} vs {tb}")
 
     def subscript(self, e, cx, binds):
@@ -402,6 +409,8 @@ class Translator:
             base, bty = a
             if (bty in (VF, VI, MR) and k == 0) or (bty == M and k == 1):
                 return (f"(zlen {base})", I)
+            if bty == M and k == 0:
+                return (f"(mrows {base})", I)          # number of rows = length of the first column (0 for a matrix without columns)
             raise Unsupported(f"shape[{k}] of {bty}")
         if ta in ELEM and ti == I:
             return (self.hoist(cx, binds, f"get_idx {a} {i}"), ELEM[ta])
@@ -422,6 +431,11 @@ class Translator:
             if len(args) == 1 and args[0][1] == VF and kws in ({}, {"ord": 2}):
                 return (f"(vnorm {args[0][0]})", F)
             raise Unsupported("norm form")
+        if isinstance(fn, ast.Name) and fn.id == "sum" and len(e.args) == 1 and not e.keywords:
+            a, ta = self.expr(e.args[0], cx, binds)
+            if ta != VI:
+                raise Unsupported("builtin sum of a non-integer list")
+            return (f"(fold_left Z.add {a} 0%Z)", I)
         if isinstance(fn, ast.Name) and fn.id in ("max", "min", "abs", "len"):
             args = [self.expr(a, cx, binds) for a in e.args]
             if fn.id == "len" and len(args) == 1 and args[0][1] in ELEM:
@@ -430,6 +444,8 @@ class Translator:
                 return (f"(fabs {coerce(*args[0], F)})", F)
             if fn.id in ("max", "min") and len(args) == 2:
                 (a, ta), (b, tb) = args
+                if fn.id == "max" and E in (ta, tb):
+                    return (f"(emax {coerce(a, ta, E)} {coerce(b, tb, E)})", E)
                 if ta == I and tb == I:
                     return (f"(Z.{fn.id} {a} {b})", I)
                 return (f"(f{fn.id} {coerce(a, ta, F)} {coerce(b, tb, F)})", F)
@@ -504,7 +520,9 @@ class Translator:
         raise Unsupported(f"call {ast.unparse(fn)}")
 
     def apply(self, name, sig, pre, e, cx, binds):
-        args = [self.expr(a, cx, binds) for a in e.args]
+        # datafit / penalty objects handed on to another kernel: dropped here, their methods are passed below
+        pos_args = [a for a in e.args if not (isinstance(a, ast.Name) and a.id in cx.objs)]
+        args = [self.expr(a, cx, binds) for a in pos_args]
         kw = {k.arg: self.expr(k.value, cx, binds) for k in e.keywords}
         out = list(pre)
         lifted = None
@@ -525,8 +543,16 @@ class Translator:
             else:
                 out.append(coerce(s, t, pty))
         callee = mg(sig.get("coqname", name))
+        protos = []
         for k, ty in sig.get("protocols", []):
-            raise Unsupported(f"call to kernel {name} with object parameters")
+            kind, meth = k.split("_", 1)
+            if kind not in cx.objs.values():
+                raise Unsupported(f"call to kernel {name} needing a {kind} object")
+            key = (kind, meth)
+            if key not in cx.used_protocols:
+                cx.used_protocols.append(key)
+            protos.append(k)
+        out = list(pre) + protos + out[len(pre):]
         if lifted is not None:
             return (self.hoist(cx, binds, f"mapM (fun x__ => {callee} {' '.join(out)}) {lifted}"), VF)
         return (self.hoist(cx, binds, f"{callee} {' '.join(out)}"), sig["ret"])
@@ -553,6 +579,8 @@ class Translator:
             if not v.isidentifier():
                 v = self.hoist(cx, binds, f"ret {a0[0]}")
             return (self.hoist(cx, binds, f"fdiv (vsum {v}) (fofZ (zlen {v}))"), F)
+        if name == "max" and len(args) == 1 and a0[1] == VE and not kws:
+            return (self.hoist(cx, binds, f"vemax {a0[0]}"), E)
         if name in ("max", "min") and len(args) == 1 and a0[1] == VF:
             return (self.hoist(cx, binds, f"v{name} {a0[0]}"), F)
         if name == "maximum" and len(args) == 2:
@@ -582,6 +610,8 @@ class Translator:
                 return (f"(repeat true (Z.to_nat {a0[0]}))", VB)
             if dt is None:
                 return (f"(repeat (fofZ 1) (Z.to_nat {a0[0]}))", VF)
+        if name == "append" and len(args) == 2 and a0[1] == VI and args[1][1] == I and not kws:
+            return (f"({a0[0]} ++ [{args[1][0]}])", VI)
         if name == "any" and len(args) == 1:
             if a0[1] == VB: return (f"(existsb (fun b => b) {a0[0]})", B)
             if a0[1] == VF: return (f"(vany vnonzero {a0[0]})", B)
@@ -635,8 +665,28 @@ class Translator:
             return wrap(binds, f"ret {coerce(v, t, cx.ret)}")
         if isinstance(s, ast.Raise):
             return "Err Dom"
+        if isinstance(s, ast.Expr) and isinstance(s.value, ast.Call) and isinstance(s.value.func, ast.Name) \
+                and s.value.func.id in self.funcs and self.funcs[s.value.func.id].get("mutates"):
+            # call of an in-place kernel for its effect: the mutated arguments are rebound to what it returns
+            sig = self.funcs[s.value.func.id]
+            pos = [a for a in s.value.args if not (isinstance(a, ast.Name) and a.id in cx.objs)]
+            pnames = [p for p, _, _ in sig["params"]]
+            targets = []
+            for m in sig["mutates"]:
+                a = pos[pnames.index(m)]
+                if not isinstance(a, ast.Name) or a.id not in cx.types:
+                    raise Unsupported("in-place kernel called on a non-variable")
+                targets.append(mg(a.id))
+            binds = []
+            r, _ = self.apply(s.value.func.id, sig, [], s.value, cx, binds)
+            pat = targets[0] if len(targets) == 1 else "'(" + ", ".join(targets) + ")"
+            return wrap(binds, f"bind (ret {r}) (fun {pat} =>\n{self.block(rest, cx, final)})")
         if isinstance(s, ast.Continue):
             return final
+        if isinstance(s, ast.Break):
+            if not getattr(cx, "break_ret", None):
+                raise Unsupported("break outside a translated for loop")
+            return cx.break_ret
         if isinstance(s, ast.Assign) and len(s.targets) == 1:
             tgt = s.targets[0]
             if isinstance(tgt, ast.Tuple) and isinstance(s.value, ast.Tuple) and len(tgt.elts) == len(s.value.elts):
@@ -647,6 +697,8 @@ class Translator:
                     raise Unsupported("tuple assignment with overlap")
                 new = [ast.Assign(targets=[t], value=v, lineno=s.lineno) for t, v in zip(tgt.elts, s.value.elts)]
                 return self.block(new + rest, cx, final)
+            if isinstance(tgt, ast.Name) and isinstance(s.value, ast.Attribute) and s.value.attr == "dtype":
+                return self.block(rest, cx, final)      # dtype = X.dtype: arrays are untyped lists in the model
             if isinstance(tgt, ast.Name):
                 binds = []
                 v, t = self.expr(s.value, cx, binds)
@@ -708,8 +760,33 @@ class Translator:
         binds = []
         sl = tgt.slice
         if isinstance(sl, ast.Slice):
-            raise Unsupported("slice store")
+            if augop is not None or sl.step is not None or sl.lower is None or sl.upper is None or aty != VF:
+                raise Unsupported("slice store form")
+            lo, tlo = self.expr(sl.lower, cx, binds)
+            hi, thi = self.expr(sl.upper, cx, binds)
+            v, tv = self.expr(value, cx, binds)
+            if tlo != I or thi != I or tv != VF:
+                raise Unsupported("slice store types")
+            return wrap(binds, f"bind (set_slice {mg(arr)} {lo} {hi} {v}) (fun {mg(arr)} =>\n{self.block(rest, cx, final)})")
         i, ti = self.expr(sl, cx, binds)
+        if ti == VI and aty == VF and augop is not None:
+            # a[idxs] op= vector: read the selected entries, combine, store them back in order (distinct indices assumed by numpy too)
+            cur = self.hoist(cx, binds, f"gather {mg(arr)} {i}")
+            node = ast.BinOp(left=ast.Name(id="__curv__", ctx=ast.Load()), op=augop, right=value)
+            cxt = cx.child()
+            cxt.types["__curv__"] = VF
+            v, tv = self.expr(node, cxt, binds)
+            if tv != VF:
+                raise Unsupported("fancy augmented store of non-vector")
+            v = v.replace("__curv__", cur)
+            binds[:] = [(n, r.replace("__curv__", cur)) for n, r in binds]
+            return wrap(binds, f"bind (scatter {mg(arr)} {i} {v}) (fun {mg(arr)} =>\n{self.block(rest, cx, final)})")
+        if ti == VI and aty == VF and augop is None:
+            # a[idxs] = vector: one store per index, in order (numpy raises on a length mismatch: Err Shape)
+            v, tv = self.expr(value, cx, binds)
+            if tv != VF:
+                raise Unsupported("fancy store of non-vector")
+            return wrap(binds, f"bind (scatter {mg(arr)} {i} {v}) (fun {mg(arr)} =>\n{self.block(rest, cx, final)})")
         if ti == VB and aty == VF and augop is None and any(
                 isinstance(n, ast.Call) and isinstance(n.func, ast.Name) and
                 (n.func.id in self.funcs or n.func.id == cx.fname.split("__")[0]) for n in ast.walk(value)):
@@ -756,14 +833,28 @@ class Translator:
         if not st:
             raise Unsupported("loop without state")
         names = [mg(n) for n in st]
-        tup = "(" + ", ".join(names) + ")" if len(st) > 1 else names[0]
-        pat = "'" + tup if len(st) > 1 else tup
+        # `break`: the loop state carries a flag; once set, the remaining iterations return the state unchanged
+        has_break = own_break(s.body)
+        if has_break:
+            names = names + ["brk__"]
+        tup = "(" + ", ".join(names) + ")" if len(names) > 1 else names[0]
+        pat = "'" + tup if len(names) > 1 else tup
         it = s.iter
         cxb = cx.child()
-        if s.orelse:
+        if s.orelse and not all(isinstance(x, ast.Pass) for x in s.orelse):
             raise Unsupported("for-else")
-        if contains(s.body, (ast.Break, ast.Return)):
-            raise Unsupported("break/return inside for")
+        if contains(s.body, (ast.Return,)):
+            raise Unsupported("return inside for")
+        body_final = f"ret {tup}"
+        init = tup
+        cxb.break_ret = None
+        if has_break:
+            body_final = "ret (" + ", ".join(names[:-1] + ["false"]) + ")"
+            cxb.break_ret = "ret (" + ", ".join(names[:-1] + ["true"]) + ")"
+            init = "(" + ", ".join(names[:-1] + ["false"]) + ")"
+
+        def guard(body):
+            return f"if (brk__ : bool) then ret {tup} else\n{body}" if has_break else body
         if isinstance(it, ast.Call) and isinstance(it.func, ast.Name) and it.func.id == "enumerate":
             binds = []
             arr, ta = self.expr(it.args[0], cx, binds)
@@ -772,8 +863,8 @@ class Translator:
             idx, j = [x.id for x in s.target.elts]
             cxb.types[idx] = I
             cxb.types[j] = I
-            body = self.block(s.body, cxb, f"ret {tup}")
-            lp = f"for_enum {arr} (fun {mg(idx)} {mg(j)} {pat} =>\n{body}) {tup}"
+            body = guard(self.block(s.body, cxb, body_final))
+            lp = f"for_enum {arr} (fun {mg(idx)} {mg(j)} {pat} =>\n{body}) {init}"
         elif isinstance(it, ast.Call) and isinstance(it.func, ast.Name) and it.func.id == "range":
             binds = []
             args = [self.expr(a, cx, binds) for a in it.args]
@@ -781,7 +872,7 @@ class Translator:
                 raise Unsupported("range bounds")
             j = s.target.id
             cxb.types[j] = I
-            body = self.block(s.body, cxb, f"ret {tup}")
+            body = guard(self.block(s.body, cxb, body_final))
             if len(args) == 1:
                 rng = f"(zrange 0 {args[0][0]})"
             elif len(args) == 2:
@@ -791,13 +882,13 @@ class Translator:
                 rng = f"(zrange_rev ({args[1][0]} + 1) ({args[0][0]} + 1))"
             else:
                 raise Unsupported("range form")
-            lp = f"for_each {rng} (fun {mg(j)} {pat} =>\n{body}) {tup}"
+            lp = f"for_each {rng} (fun {mg(j)} {pat} =>\n{body}) {init}"
         elif isinstance(it, ast.Name) and cx.types.get(it.id) == VI:
             binds = []
             j = s.target.id
             cxb.types[j] = I
-            body = self.block(s.body, cxb, f"ret {tup}")
-            lp = f"for_each {mg(it.id)} (fun {mg(j)} {pat} =>\n{body}) {tup}"
+            body = guard(self.block(s.body, cxb, body_final))
+            lp = f"for_each {mg(it.id)} (fun {mg(j)} {pat} =>\n{body}) {init}"
         else:
             raise Unsupported("loop form")
         return wrap(binds, f"bind ({lp}) (fun {pat} =>\n{self.block(rest, cx, final)})")
@@ -866,7 +957,9 @@ class Translator:
         ps = " ".join(f"({mg(p)} : {TYMAP[t]})" for p, t in params.items())
         self.funcs[name] = dict(
             params=[(p, t, (defaults or {}).get(p)) for p, t in params.items()], ret=ret,
-            fields=fields, elementwise=elementwise, protocols=protos)
+            fields=fields, elementwise=elementwise, protocols=protos, mutates=list(mutates or []))
+        if mutates:
+            MUTATING[name] = [list(params).index(m) for m in mutates]
         text = f"Definition {mg(name)} {fparams} {pparams} {ps} : res ({tyname(ret)}) :=\n{body}."
         self.out.append(text)
         return text
@@ -879,6 +972,9 @@ def wrap(binds, body):
         else:
             body = f"bind ({rhs}) (fun {name} =>\n{body})"
     return body
+
+
+MUTATING = {}      # translated in-place kernels: name -> positions (among the non-object arguments) they mutate
 
 
 def assigned(stmts):
@@ -895,6 +991,12 @@ def assigned(stmts):
                     elif isinstance(tt, ast.Subscript) and isinstance(tt.value, ast.Name): add(tt.value.id)
                     elif isinstance(tt, ast.Subscript) and isinstance(tt.value, ast.Attribute) \
                             and isinstance(tt.value.value, ast.Name): add(f"{tt.value.value.id}_{tt.value.attr}")
+        elif isinstance(s, ast.Expr) and isinstance(s.value, ast.Call) and isinstance(s.value.func, ast.Name) \
+                and s.value.func.id in MUTATING:
+            pos = [a for a in s.value.args if not (isinstance(a, ast.Name) and a.id in ("datafit", "penalty"))]
+            for k in MUTATING[s.value.func.id]:
+                if k < len(pos) and isinstance(pos[k], ast.Name):
+                    add(pos[k].id)
         elif isinstance(s, ast.AugAssign):
             t = s.target
             add(t.id if isinstance(t, ast.Name) else (t.value.id if isinstance(t.value, ast.Name) else None))
@@ -903,6 +1005,16 @@ def assigned(stmts):
         elif isinstance(s, (ast.For, ast.While)):
             for n in assigned(s.body): add(n)
     return out
+
+
+def own_break(stmts):
+    """a `break` that belongs to the loop whose body is `stmts` (not to a nested loop)"""
+    for s in stmts:
+        if isinstance(s, ast.Break):
+            return True
+        if isinstance(s, ast.If) and (own_break(s.body) or own_break(s.orelse)):
+            return True
+    return False
 
 
 def contains(stmts, kinds):
@@ -932,8 +1044,14 @@ PROTOCOLS = {
     ("penalty", "subdiff_distance"): ([VF, VF, VI], VE),
     ("datafit", "gradient_scalar"): ([M, VF, VF, VF, I], F),
     ("datafit", "gradient_scalar_sparse"): ([VF, VI, VI, VF, VF, I], F),
+    ("datafit", "raw_grad"): ([VF, VF], VF),
+    ("datafit", "raw_hessian"): ([VF, VF], VF),
+    ("penalty", "value"): ([VF], F),
+    ("datafit", "gradient_g"): ([M, VF, VF, VF, I], VF),
+    ("datafit", "gradient_g_sparse"): ([VF, VI, VI, VF, VF, VF, I], VF),
 }
 OBJ_ATTRS = {
     ("penalty", "grp_ptr"): VI,
     ("penalty", "grp_indices"): VI,
+    ("datafit", "grp_ptr"): VI,
 }
